@@ -60,5 +60,9 @@ FinalTree == (s.status = "done") =>
   /\ s.en = 0
   /\ \A k \in 1..(Len(s.diags) - 1) : s.diags[k] <= s.diags[k + 1]
 
+\* liveness (C03): under weak fairness every behaviour reaches a final state
+Spec == Init /\ [][Next]_s /\ WF_s(Next)
+Termination == <>(s.status # "run")
+
 Count == (s.status # "run") => PrintT("DONE|" \o ToJson([en |-> s.entry, w |-> s.w, u |-> s.used]))
 =============================================================================
